@@ -4,6 +4,10 @@ import FlooVerif.Net
 import FlooVerif.Hw
 import FlooVerif.DescJson
 import FlooVerif.Check
+import FlooVerif.Check2
+import FlooVerif.Check3
+import FlooVerif.Gen.HwFacts
+import FlooVerif.Gen.PyFacts
 open Lean FlooVerif
 
 def jStrList (j : Json) : Except String (List String) := do
@@ -14,7 +18,9 @@ def findingJson (f : Finding) : Json :=
   Json.mkObj [("claim", f.claim), ("site", f.site), ("detail", f.detail)]
 
 def checkers : List (String × (Desc → Net → List Finding)) :=
-  [("C01", C01.check), ("C02", C02.check), ("C03", C03.check), ("C05", C05.check)]
+  [("C01", C01.check), ("C02", C02.check), ("C03", C03.check), ("C04", C04.check), ("C05", C05.check),
+   ("C06", C06.check), ("C07", C07.check), ("C08", C08.check), ("C09", C09.check),
+   ("C11", C11.check Gen.hwFacts Gen.pyFacts), ("C13", C13.check), ("C14", C14.check)]
 
 def handle (j : Json) : Except String Json := do
   let cmd ← (← j.getObjVal? "cmd").getStr?
@@ -36,6 +42,7 @@ def handle (j : Json) : Except String Json := do
     let m ← Sv.parseModuleLossless top
     let n ← Net.ofSv p m
     let res := props.map fun pid =>
+      if pid == "C12" then (pid, Json.arr ((C12.check Gen.hwFacts pkg top d n).map findingJson).toArray) else
       match checkers.find? (·.1 == pid) with
       | some (_, chk) => (pid, Json.arr ((chk d n).map findingJson).toArray)
       | none => (pid, Json.str "no such checker")
